@@ -1,15 +1,20 @@
 package main
 
 import (
+	"context"
 	"fmt"
+	"net/http/httptest"
+	"net/url"
 	"os"
 	"path/filepath"
 	"reflect"
 	"sort"
 	"strings"
 
+	"github.com/bolkedebruin/rdpgw/cmd/rdpgw/identity"
 	"github.com/bolkedebruin/rdpgw/cmd/rdpgw/rdp"
 	rdpparser "github.com/bolkedebruin/rdpgw/cmd/rdpgw/rdp/koanf/parsers/rdp"
+	"github.com/bolkedebruin/rdpgw/cmd/rdpgw/web"
 )
 
 func init() { register("C19", runC19) }
@@ -419,6 +424,42 @@ func runC19(r *Run) {
 		if touts[i] != tans[i] {
 			note(fmt.Sprintf("NewBuilderFromFile(...).String() differs from the model\ntemplate: %q\nimpl:  %s\nmodel: %s\n", tins[i], touts[i], tans[i]))
 		}
+	}
+	// 5. the download handler with a template: every file is a function of the template and of the
+	// request it answers — what an earlier download wrote must not show up in a later one
+	for ti, tpl := range []string{"domain:s:TEMPLATEDOM\r\naudiomode:i:2\r\nusername:s:from-template\r\n", "audiomode:i:1\r\nalternate shell:s:notepad.exe\r\n", "domain:s:D\r\nfull address:s:template-host:1\r\ngatewayhostname:s:template-gw\r\n"} {
+		fn := filepath.Join(dir, fmt.Sprintf("dl-template-%d.rdp", ti))
+		os.WriteFile(fn, []byte(tpl), 0o644)
+		gwURL, _ := url.Parse("https://gw.example.com:443/")
+		for _, split := range []bool{true, false} {
+			h := (&web.Config{PAATokenGenerator: func(context.Context, string, string) (string, error) { return "tok", nil },
+				Hosts: []string{"10.0.0.1:3389"}, HostSelection: "roundrobin", GatewayAddress: gwURL, TemplateFile: fn,
+				RdpOpts: web.RdpOpts{SplitUserDomain: split}}).NewHandler()
+			download := func(user string) string {
+				id := identity.NewUser()
+				id.SetUserName(user)
+				id.SetAuthenticated(true)
+				id.SetAttribute(identity.AttrClientIp, "192.0.2.1")
+				req := identity.AddToRequestCtx(id, httptest.NewRequest("GET", "http://gw.example.com/connect", nil))
+				rec := httptest.NewRecorder()
+				h.HandleDownload(rec, req)
+				return fmt.Sprintf("%d %s", rec.Code, rec.Body.String())
+			}
+			seq := []string{"bob", "alice@corp.example", "bob", "carol@other.example", "alice@corp.example", "bob"}
+			firstOf := map[string]string{}
+			var log []string
+			for k, u := range seq {
+				out := download(u)
+				log = append(log, fmt.Sprintf("download %d by %q: %q", k+1, u, out))
+				r.Count(fmt.Sprintf("dl-history:%d:%v:%d", ti, split, k))
+				if prev, ok := firstOf[u]; ok && prev != out {
+					r.Violation("c19-template-history", "a connection file depends on earlier downloads: the same user, template and settings give a different file than before", fmt.Sprintf("template: %q splituserdomain=%v\n%s\nfirst file for %q: %q\n", tpl, split, strings.Join(log, "\n"), u, prev))
+					break
+				}
+				firstOf[u] = out
+			}
+		}
+		os.Remove(fn)
 	}
 	r.extra["model_disagreements"] = drift
 	if drift > 0 && !r.HasViolation() {
